@@ -362,8 +362,8 @@ func liveNames(d *Dump) []string {
 }
 
 type c15Pair struct {
-	Index int
-	Seed  int64
+	Index  int
+	Seed   int64
 	StepsA []*Obs
 	StepsB []*Obs // client and job steps of run B, in execution order
 	Divs   []C15Div
